@@ -46,6 +46,29 @@ func viFlateWrite(level int, small bool, n int, seed uint32) func() {
 	}
 }
 
+// viSkewed has Fibonacci symbol frequencies over 18 symbols: the Huffman tree
+// is deeper than 15, so the length-limiting path of the code generator runs.
+func viSkewed(rot int) []byte {
+	var d []byte
+	a, b := 1, 1
+	for s := 0; s < 18; s++ {
+		for i := 0; i < a; i++ {
+			d = append(d, byte('A'+(s+rot)%18))
+		}
+		a, b = b, a+b
+	}
+	return d
+}
+
+func viHuffWrite(rot int) func() {
+	return func() {
+		var s viSink
+		w, _ := flate.NewWriter(&s, flate.HuffmanOnly)
+		w.Write(viSkewed(rot))
+		w.Close()
+	}
+}
+
 func viFlateRead(stream []byte) func() {
 	return func() {
 		r := flate.NewReader(bytes.NewReader(stream))
@@ -102,7 +125,7 @@ func viZlibRead(data []byte) func() {
 // one instance may be touched through the other. Natively the two workloads run
 // concurrently under the race detector.
 func VerifInstances() {
-	pair := verifrt.Pick("pair", 8)
+	pair := verifrt.Pick("pair", 9)
 	n := verifrt.Param("N")
 	win := verifrt.Bytes(n) // symbolic stream bytes for reader workloads
 	// a dynamic-block stream (template 2) with the symbolic window as payload
@@ -132,6 +155,8 @@ func VerifInstances() {
 		a, b = viFlateRead(dyn), viFlateRead(dyn)
 	case 7:
 		a, b = viGzipWrite(-2, 200), viZlibWrite(1, 200)
+	case 8:
+		a, b = viHuffWrite(0), viHuffWrite(5)
 	}
 	verifrt.Parallel(a, b)
 	verifrt.Cover("ran")
